@@ -27,6 +27,8 @@ RULE = ('Hypothesis generates cube packages and per-file packages (SED files in 
         '(object or file). One evaluation = one fit + one plot() call. Non-trivial = >= 2 selected fits and (multi-aperture '
         'package or >= 2 distinct filter apertures); distinct = distinct canonical JSON.')
 RULE += (' ' + 'Also varied: the result re-ranked by FitInfo.sort() before plotting.')
+RULE += (' ' + 'A third of the cases regenerate the package in the same directory with other fluxes, refit and plot again.')
+RULE += (' ' + 'Nearly half of the cases hand one or two further sources (same Fitter, other photometry) to the same plot() call, before and/or after the generated one; the curves of every source are examined.')
 ASSUMPTIONS = [
     'curves are compared at 1.5e-3 relative (plot.py rounds kpc to 3.086e21 cm and c to 3e8 m/s)',
     'for apertures beyond the table the composite curve may use 0.999 x the largest aperture: any value between the '
@@ -84,6 +86,9 @@ def cases(draw):
     # the result may have been ranked again by the caller (FitInfo.sort() is public, e.g. after adding a prior to chi2)
     c['resort'] = draw(st.integers(0, 2)) == 0
     c['second_generation'] = draw(st.integers(0, 2)) == 0
+    # further sources handed to the same plot() call (fitted with the same Fitter, so every model is shared), before and
+    # after the one that is examined; each of them is examined too
+    c['companions'] = draw(st.sampled_from([[], [], [], ['before'], ['after'], ['before', 'after'], ['after', 'after']]))
     c['av_range'] = draw(st.sampled_from([[0., 10.], [0., 0.5], [1., 1.], [-1., 30.]]))
     return c
 
@@ -99,7 +104,8 @@ def write_sed_files(mdir, case, apdep):
     wav = [filters[j]['wav'] for j in order]
     layout = case.get('sed_layout', 'flat')
     sub = 3 if layout.startswith('sub') else 0
-    pkgio.write_conf(mdir, apdep, case['setup']['step'] if apdep else 0.02, version=None, length_subdir=sub)
+    pkgio.write_conf(mdir, apdep, case['setup']['step'] if apdep else 0.02, version=None, length_subdir=sub,
+                     style=case.get('conf_style', 0))
     os.mkdir(os.path.join(mdir, 'seds'))
     for m, name in enumerate(names):
         if apdep:
@@ -129,6 +135,80 @@ def regenerated(case):
     else:
         g['flux'] = [[[v * (1.5 + 0.25 * j) for v in col] for j, col in enumerate(case['grid']['flux'][(i + 1) % n])] for i in range(n)]
     return c
+
+
+def verify_curves(case, src, pred, figs, nsel, aps):
+    """the curves plot() returned for one source against the fits stored for it"""
+    import itertools
+    apdep = case['apdep']
+    names = case['grid']['names']
+    nf = len(case['filters'])
+    theta = case['theta']
+    uniq = sorted(set(theta))
+    who = '' if src['name'] == case['sources'][0]['name'] else 'source %s (plotted in the same call): ' % src['name']
+    if src['name'] not in figs or 'lines' not in figs[src['name']]:
+        fail(who + 'plot() returned no curves for the source', 'c17:no_lines')
+    segs = [np.asarray(s, dtype=float) for s in figs[src['name']]['lines'].get_segments()]
+    mode = case['sed_type']
+    shown = {'interp': [None], 'largest': [max(theta)], 'largest+smallest': [min(theta), max(theta)], 'all': uniq}[mode]
+    count = len(shown)
+    if len(segs) != nsel * count:
+        fail(who + '%d curves drawn for %d selected fits in display mode %r (%d aperture(s) shown per fit: expected %d)' % (
+            len(segs), nsel, mode, count, nsel * count), 'c17:curve_count')
+    groups = [segs[g * count:(g + 1) * count] for g in range(nsel)]
+
+    def mismatch(group, p):
+        """None if this group of curves is the fit p, else a description"""
+        m = names.index(p['name'])
+        d_kpc = 10. ** p['sc']
+        for j in range(nf):
+            lam = case['filters'][j]['wav']
+            want = 10. ** (p['mf'][j] - 26.) * C_UM / lam
+            lo = hi = want
+            if mode == 'interp':
+                curve = group[0]
+                if apdep and len(aps) > 1 and theta[j] * d_kpc * 1000. > aps[-1]:
+                    # beyond the table: 0.999 x max bracket
+                    col = case['grid']['flux'][m][j]
+                    alt = om.interp_aperture(aps, col, 0.999 * aps[-1]) / col[-1] * want
+                    lo, hi = min(want, alt), max(want, alt)
+            else:
+                if theta[j] not in shown:
+                    continue
+                curve = group[shown.index(theta[j])]
+            if curve.ndim != 2 or curve.shape[0] == 0:
+                return 'a drawn curve has no finite points (shape %r)' % (curve.shape,)
+            x = curve[:, 0]
+            p_idx = int(np.argmin(np.abs(x - lam)))
+            if abs(x[p_idx] - lam) > 1e-9 * lam:
+                return 'curve has no point at the fitted wavelength %r micron' % lam
+            y = curve[p_idx, 1]
+            if not (lo * (1 - 1.5e-3) <= y <= hi * (1 + 1.5e-3)):
+                return ('at %r micron (filter %d, aperture %r") the curve has %r, the predicted flux stored with the fit '
+                        '(model %s, A_V=%r, scale=%r) is %r' % (lam, j, theta[j], y, p['name'], p['av'], p['sc'], want))
+        return None
+
+    why = mismatch(groups[-1], pred[0])
+    if why is not None:
+        # is the best fit drawn somewhere else?
+        elsewhere = [g for g in range(nsel - 1) if mismatch(groups[g], pred[0]) is None]
+        if elsewhere:
+            fail(who + 'the best fit is not drawn last (it is group %d of %d)' % (elsewhere[0] + 1, nsel), 'c17:best_not_last')
+        fail(who + 'display mode %r, best fit: %s' % (mode, why), 'c17:curve_not_through_prediction')
+    # the other groups may be drawn in any order: look for a one-to-one assignment (the 0.999-max bracket can make a
+    # fit compatible with several groups, so a greedy choice is not enough)
+    import itertools
+    rest = pred[1:]
+    table = [[mismatch(groups[g], p) for g in range(nsel - 1)] for p in rest]
+    assigned = any(all(table[r][perm[r]] is None for r in range(len(rest)))
+                   for perm in itertools.permutations(range(nsel - 1)))
+    if not assigned:
+        for r, p in enumerate(rest):
+            if all(w is not None for w in table[r]):
+                fail(who + 'display mode %r, fit of model %s: no drawn curve matches it: %s' % (mode, p['name'], table[r][-1 - r] or table[r][0]),
+                     'c17:curve_not_through_prediction')
+        fail(who + 'display mode %r: the drawn curves cannot be assigned one-to-one to the selected fits %r' % (
+            mode, [p['name'] for p in rest]), 'c17:curve_not_through_prediction')
 
 
 def run_case(case, ctx):
@@ -172,98 +252,53 @@ def run_case(case, ctx):
                 labels.add('cube_package')
             with must_succeed('Fitter()'), quiet():
                 fitter = gen.make_fitter(mdir, case, case['av_range'], distance_range=dr)
-            with must_succeed('Fitter.fit'), quiet():
-                info = fitter.fit(gen.source_object(src))
-            if not np.all(np.isfinite(info.chi2)) or not np.all(np.isfinite(info.av)):
-                return labels | {'singular_fit_skipped'}, False
-            if case.get('resort'):
-                with must_succeed('FitInfo.sort() on a fit result'):
-                    info.sort()
-                labels.add('result_sorted_again')
+            # the sources of this plot() call: the generated one plus its companions (same flags, other photometry)
+            todo = []
+            for ci, where in enumerate(case.get('companions') or []):
+                comp = dict(src, name='companion%d' % ci,
+                            flux=[v * (1.4 + 0.45 * ci + 0.3 * j) if f in (1, 2, 3) else v + 0.1 * (ci + 1) * (j + 1)
+                                  for j, (f, v) in enumerate(zip(src['flags'], src['flux']))])
+                comp.pop('int_arrays', None)
+                todo.append((where, comp))
+            ordered = [c_ for w_, c_ in todo if w_ == 'before'] + [src] + [c_ for w_, c_ in todo if w_ == 'after']
+            infos = []
+            for one in ordered:
+                with must_succeed('Fitter.fit'), quiet():
+                    info = fitter.fit(gen.source_object(one))
+                if not np.all(np.isfinite(info.chi2)) or not np.all(np.isfinite(info.av)):
+                    return labels | {'singular_fit_skipped'}, False
+                if case.get('resort'):
+                    with must_succeed('FitInfo.sort() on a fit result'):
+                        info.sort()
+                    labels.add('result_sorted_again')
+                infos.append(info)
             nsel = min(case['nsel'], len(names))
             sel = ('N', nsel)
-            # what the fit stores
-            pred = []
-            for i in range(nsel):
-                pred.append({'name': str(info.model_name[i]).strip(), 'av': float(info.av[i]), 'sc': float(info.sc[i]),
-                             'mf': [float(v) for v in info.model_fluxes[i]]})
-            if any(abs(v) > 250. for p in pred for v in p['mf']) or any(abs(p['sc']) > 100. for p in pred) or \
-                    any(abs(p['av'] * kk) > 100. for p in pred for kk in k):
-                # the intermediate products (distance scaling x reddening) leave the float64 range
-                return labels | {'flux_out_of_float_range_skipped'}, False
+            # what the fits store
+            preds = []
+            for info in infos:
+                pred = []
+                for i in range(nsel):
+                    pred.append({'name': str(info.model_name[i]).strip(), 'av': float(info.av[i]), 'sc': float(info.sc[i]),
+                                 'mf': [float(v) for v in info.model_fluxes[i]]})
+                if any(abs(v) > 250. for p in pred for v in p['mf']) or any(abs(p['sc']) > 100. for p in pred) or \
+                        any(abs(p['av'] * kk) > 100. for p in pred for kk in k):
+                    # the intermediate products (distance scaling x reddening) leave the float64 range
+                    return labels | {'flux_out_of_float_range_skipped'}, False
+                preds.append(pred)
             if case['input'] == 'file':
                 path = os.path.join(d, 'out.fitinfo')
-                fg.write_fit_file(path, [info])
+                fg.write_fit_file(path, infos)
                 arg = path
             else:
-                arg = info
-            with must_succeed('plot(sed_type=%r, %s input)' % (case['sed_type'], case['input'])), quiet():
+                arg = infos[0] if len(infos) == 1 else infos
+            with must_succeed('plot(sed_type=%r, %s input, %d source(s))' % (case['sed_type'], case['input'], len(infos))), quiet():
                 figs = sedfitter.plot(arg, output_dir=None, select_format=sel, sed_type=case['sed_type'])
             import matplotlib.pyplot as plt
             plt.close('all')
-            if src['name'] not in figs or 'lines' not in figs[src['name']]:
-                fail('plot() returned no curves for the source', 'c17:no_lines')
-            segs = [np.asarray(s, dtype=float) for s in figs[src['name']]['lines'].get_segments()]
-            mode = case['sed_type']
-            shown = {'interp': [None], 'largest': [max(theta)], 'largest+smallest': [min(theta), max(theta)], 'all': uniq}[mode]
-            count = len(shown)
-            if len(segs) != nsel * count:
-                fail('%d curves drawn for %d selected fits in display mode %r (%d aperture(s) shown per fit: expected %d)' % (
-                    len(segs), nsel, mode, count, nsel * count), 'c17:curve_count')
-            groups = [segs[g * count:(g + 1) * count] for g in range(nsel)]
-
-            def mismatch(group, p):
-                """None if this group of curves is the fit p, else a description"""
-                m = names.index(p['name'])
-                d_kpc = 10. ** p['sc']
-                for j in range(nf):
-                    lam = case['filters'][j]['wav']
-                    want = 10. ** (p['mf'][j] - 26.) * C_UM / lam
-                    lo = hi = want
-                    if mode == 'interp':
-                        curve = group[0]
-                        if apdep and len(aps) > 1 and theta[j] * d_kpc * 1000. > aps[-1]:
-                            # beyond the table: 0.999 x max bracket
-                            col = case['grid']['flux'][m][j]
-                            alt = om.interp_aperture(aps, col, 0.999 * aps[-1]) / col[-1] * want
-                            lo, hi = min(want, alt), max(want, alt)
-                    else:
-                        if theta[j] not in shown:
-                            continue
-                        curve = group[shown.index(theta[j])]
-                    if curve.ndim != 2 or curve.shape[0] == 0:
-                        return 'a drawn curve has no finite points (shape %r)' % (curve.shape,)
-                    x = curve[:, 0]
-                    p_idx = int(np.argmin(np.abs(x - lam)))
-                    if abs(x[p_idx] - lam) > 1e-9 * lam:
-                        return 'curve has no point at the fitted wavelength %r micron' % lam
-                    y = curve[p_idx, 1]
-                    if not (lo * (1 - 1.5e-3) <= y <= hi * (1 + 1.5e-3)):
-                        return ('at %r micron (filter %d, aperture %r") the curve has %r, the predicted flux stored with the fit '
-                                '(model %s, A_V=%r, scale=%r) is %r' % (lam, j, theta[j], y, p['name'], p['av'], p['sc'], want))
-                return None
-
-            why = mismatch(groups[-1], pred[0])
-            if why is not None:
-                # is the best fit drawn somewhere else?
-                elsewhere = [g for g in range(nsel - 1) if mismatch(groups[g], pred[0]) is None]
-                if elsewhere:
-                    fail('the best fit is not drawn last (it is group %d of %d)' % (elsewhere[0] + 1, nsel), 'c17:best_not_last')
-                fail('display mode %r, best fit: %s' % (mode, why), 'c17:curve_not_through_prediction')
-            # the other groups may be drawn in any order: look for a one-to-one assignment (the 0.999-max bracket can make a
-            # fit compatible with several groups, so a greedy choice is not enough)
-            import itertools
-            rest = pred[1:]
-            table = [[mismatch(groups[g], p) for g in range(nsel - 1)] for p in rest]
-            assigned = any(all(table[r][perm[r]] is None for r in range(len(rest)))
-                           for perm in itertools.permutations(range(nsel - 1)))
-            if not assigned:
-                for r, p in enumerate(rest):
-                    if all(w is not None for w in table[r]):
-                        fail('display mode %r, fit of model %s: no drawn curve matches it: %s' % (mode, p['name'], table[r][-1 - r] or table[r][0]),
-                             'c17:curve_not_through_prediction')
-                fail('display mode %r: the drawn curves cannot be assigned one-to-one to the selected fits %r' % (
-                    mode, [p['name'] for p in rest]), 'c17:curve_not_through_prediction')
+            labels.add('sources_in_one_plot_call=%d' % len(infos))
+            for one, pred in zip(ordered, preds):
+                verify_curves(case, one, pred, figs, nsel, aps)
             del fitter
     multi = (apdep and len(case['grid']['apertures']) > 1) or len(uniq) >= 2
     return labels, nsel >= 2 and multi
